@@ -505,6 +505,9 @@ func runRaw(rc rawCase) (vs []viol, evals, nontrivial int) {
 	if rc.Variant != variants[3] {
 		if rc.Incremental {
 			g = up.NewGraph()
+			// clearing a type that has no upcasters changes nothing - now or later
+			bus.ClearUpcastsForType("no-such-type")
+			bus.ClearUpcastsForType(rc.Names[len(rc.Names)-1])
 		}
 		for k, e := range rc.Edges {
 			if err := eventbus.RegisterUpcastFunc(bus, e.From, e.To, mk(e)); err != nil {
@@ -526,6 +529,21 @@ func runRaw(rc rawCase) (vs []viol, evals, nontrivial int) {
 	}
 	stage = ""
 	observe()
+	if rc.Incremental && len(vs) == 0 && len(rc.Edges) > 0 {
+		// clearing types that are only targets (or unknown) leaves every chain in place
+		cleared := 0
+		for _, n := range append([]string{"no-such-type"}, rc.Names...) {
+			if len(g.Out[n]) == 0 {
+				bus.ClearUpcastsForType(n)
+				bus.ClearUpcastsForType(n)
+				cleared++
+			}
+		}
+		if cleared > 0 {
+			stage = " [replay after ClearUpcastsForType of types that have no upcasters]"
+			observe()
+		}
+	}
 	if rc.Incremental && len(vs) == 0 && len(rc.Edges) > 0 {
 		// everything cleared at once, observed, and registered again
 		bus.ClearUpcasts()
@@ -689,8 +707,17 @@ func runTyped(tc typedCase) (vs []viol, evals, nontrivial int) {
 	store.Append(context.Background(), &eventbus.Event{Type: n1, Data: json.RawMessage(`{"Name":5,"Age":"x"}`), Timestamp: time.Unix(1600000000, 0)})
 	store.Append(context.Background(), &eventbus.Event{Type: n2, Data: json.RawMessage(`{"FullName":"teen","Age":13}`), Timestamp: time.Unix(1600000001, 0)})
 	store.Append(context.Background(), &eventbus.Event{Type: "unrelated.Type", Data: json.RawMessage(`{"x":[1,2,3]}`), Timestamp: time.Unix(1600000002, 0)})
+	// documents that fail to decode *after* some of their fields were accepted (a type
+	// mismatch in one field), each followed by documents of the same type that leave fields
+	// out: what an upcaster decoded for one event must not show up in the next
+	for i, d := range []struct{ t, doc string }{
+		{n1, `{"Name":"leak","Age":"forty"}`}, {n1, `{"Age":21}`}, {n1, `{}`},
+		{n2, `{"FullName":"leak2","Tags":["secret","vip"],"Age":"x"}`}, {n2, `{"Age":40}`}, {n2, `{"FullName":"only"}`},
+	} {
+		store.Append(context.Background(), &eventbus.Event{Type: d.t, Data: json.RawMessage(d.doc), Timestamp: time.Unix(1600000010+int64(i), 0)})
+	}
 	stored, _, err := store.Read(context.Background(), eventbus.OffsetOldest, 0)
-	if err != nil || len(stored) != 14 {
+	if err != nil || len(stored) != 20 {
 		vrt.MachineryFault("typed part: store holds %d events (%v)", len(stored), err)
 	}
 	snapshot := make([]eventbus.StoredEvent, len(stored))
